@@ -75,8 +75,11 @@ def run(ck):
     # (a single 12000-trace batch made coqc fail on 750-trace files)
     total = dict(traces_validated_against_impl=0, ops_total=0, panic_observations=0)
     hist = {}
+    # the view must be the same function of the reports on a replica restored from a snapshot / a follower that caught up by snapshot
+    ncorp = len(dbprops.load_corpus("C04"))
+    traces = traces[:ncorp] + [dbgen.with_lag(ck.rng, dbgen.with_forks(ck.rng, t, 2, 0.35), 0.2) for t in traces[ncorp:]]
     for lo in range(0, len(traces), 1000):
-        dbprops.run_db_property(ck, eng, traces[lo:lo + 1000], [mon_c04], with_replicas=False, nontrivial=nontrivial)
+        dbprops.run_db_property(ck, eng, traces[lo:lo + 1000], [mon_c04], with_replicas=True, nontrivial=nontrivial)
         for k in total:
             total[k] += ck.cov.get(k, 0)
         for k, v in ck.cov.get("op_histogram", {}).items():
